@@ -1,8 +1,14 @@
 #!/bin/bash
-# usage: trymut.sh <patch.diff> <prop>...   applies the patch to /repo, runs the checks, always reverts
+# usage: trymut.sh <patch.diff> <prop>...   applies the patch to /repo, runs the checks, always reverts.
+# Evidence and replay files are written to a scratch copy of /verif's output directories, never to /verif itself
+# (evidence committed from /verif must come from the unchanged tree).
 patch=$1; shift
 cd /repo || exit 3
 if [ -n "$(git status --porcelain)" ]; then echo "repo dirty"; exit 3; fi
 git apply "$patch" || { echo "patch does not apply"; exit 3; }
-for p in "$@"; do /verif/bin/gvc check $p 2>&1 | grep -v "^  obligation" | tail -6; echo "[$p exit=${PIPESTATUS[0]}]"; done
+scratch=$(mktemp -d /tmp/trymut.XXXXXX)
+mkdir -p $scratch/verif
+for f in contracts harness known_findings.txt properties.jsonl; do ln -s /verif/$f $scratch/verif/$f; done
+for p in "$@"; do GVC_VERIF=$scratch/verif /verif/bin/gvc check $p 2>&1 | grep -v "^  obligation" | sed "s#$scratch##" | tail -6; echo "[$p exit=${PIPESTATUS[0]}]"; done
+rm -rf $scratch
 git checkout -- . ; git status --porcelain | head -3
